@@ -2,6 +2,7 @@ package main
 
 import (
 	"math/rand"
+	"reflect"
 	"strings"
 	"time"
 
@@ -294,10 +295,44 @@ func knownStmtClass(stmt influxql.Statement, text string) string {
 			return "zero-duration-option-not-printed"
 		}
 	}
-	if textHasEmptyIdent(text) {
+	if textHasEmptyIdent(text) || hasNamelessMeasurement(reflect.ValueOf(stmt)) {
 		return "empty-identifier-not-printed"
 	}
 	return ""
+}
+
+// hasNamelessMeasurement: a source measurement with neither name nor regex (`FROM a..` followed by
+// something that is not a name: the empty segment lands in the name position).
+func hasNamelessMeasurement(v reflect.Value) bool {
+	if !v.IsValid() {
+		return false
+	}
+	switch v.Kind() {
+	case reflect.Ptr, reflect.Interface:
+		if v.IsNil() {
+			return false
+		}
+		if m, ok := v.Interface().(*influxql.Measurement); ok {
+			return m.Name == "" && m.Regex == nil && m.SystemIterator == "" && !m.IsTarget
+		}
+		return hasNamelessMeasurement(v.Elem())
+	case reflect.Struct:
+		if v.Type().PkgPath() != "github.com/influxdata/influxql" {
+			return false
+		}
+		for i := 0; i < v.NumField(); i++ {
+			if v.Type().Field(i).PkgPath == "" && hasNamelessMeasurement(v.Field(i)) {
+				return true
+			}
+		}
+	case reflect.Slice:
+		for i := 0; i < v.Len(); i++ {
+			if hasNamelessMeasurement(v.Index(i)) {
+				return true
+			}
+		}
+	}
+	return false
 }
 
 // textHasEmptyIdent: the statement was written with an empty quoted identifier (`""`); the
